@@ -19,7 +19,7 @@ if [ "${SUITE:-0}" = 1 ]; then
   (cd "$wt" && go test -count=1 ./... 2>&1 | grep -v "no test files" | tail -15)
 fi
 mkdir -p "$hc/root"
-cp -r /verif/harness "$hc/harness"
+cp -r "${HARNESS_SRC:-/verif/harness}" "$hc/harness"
 cp -r /verif/known_findings.json "$hc/root/" 2>/dev/null
 cp -r /verif/known_findings.d "$hc/root/" 2>/dev/null
 cp -r /verif/replays "$hc/root/" 2>/dev/null
